@@ -17,8 +17,10 @@ CONSTANTS
  Exts = {TRUE, FALSE}
  KeepSlots = FALSE
  TarUnverified = FALSE
+ MTs = {TRUE}
+ DigestHdrs = {"served"}
 INIT Init
 NEXT Next
 VIEW View
-INVARIANTS TypeOK PCleanOk HashIsGot CountIsGot Bounded EofVerified EofSized NeverSelfBlocked NoLeftover
+INVARIANTS TypeOK PCleanOk HashIsGot CountIsGot Bounded EofVerified EofSized NeverSelfBlocked NoLeftover WantIsAsked
 CHECK_DEADLOCK FALSE
